@@ -2,15 +2,15 @@
 
    - the lexer is a fold: it distributes over ++ ([run_app]);
    - FRAME: a run that does not end in the error state never looks below the stack it started with
-     ([run_frame]); hence a text that is balanced on its own is a neutral fragment anywhere in code
+     ([run_frame]); hence a text that is c10_balanced on its own is a neutral fragment anywhere in code
      ([balanced_bal]) - this is what makes user-supplied verbatim text (type overrides, mapped types,
-     decorators) a hole like any other: the hypothesis is that it is balanced by itself;
+     decorators) a hole like any other: the hypothesis is that it is c10_balanced by itself;
    - [bal cfg t]: t is a neutral code fragment (from code mode with ANY stack back to code mode with
      the same stack); closed under ++, concat, flat_map, join, repeat;
    - holes: identifier-shaped names, keys, dotted names are neutral in code, inside "..", inside
      back-ticks, inside Go raw strings; a doc line is neutral inside a line comment, a TypeScript
      block comment, a Python triple-quoted string;
-   - tactics: [lex_lit] computes the run over a closed literal fragment by vm_compute, [lex_go]
+   - tactics: [lex_lit] computes the run over a closed literal fragment by vm_compute, [c10_lex_go]
      walks a renderer's ++ chain from left to right. *)
 From Coq Require Import List Bool Lia ZifyBool ZifyN NArith.
 From TS Require Import Model.Str Model.Lang.Decl Spec.C10Spec.
@@ -18,16 +18,16 @@ Import ListNotations.
 Local Open Scope N_scope.
 Local Notation length := List.length (only parsing).
 
-Notation run := lex_run.
+Notation run := c10_lex_run.
 
 Lemma run_app cfg s a b : run cfg s (a ++ b) = run cfg (run cfg s a) b.
 Proof. apply fold_left_app. Qed.
 Lemma run_nil cfg s : run cfg s [] = s.
 Proof. reflexivity. Qed.
-Lemma run_cons cfg s c t : run cfg s (c :: t) = run cfg (lex_step cfg s c) t.
+Lemma run_cons cfg s c t : run cfg s (c :: t) = run cfg (c10_lex_step cfg s c) t.
 Proof. reflexivity. Qed.
 
-Lemma run_err cfg st t : run cfg (LErr, st) t = (LErr, st).
+Lemma run_err cfg st t : run cfg (C10LErr, st) t = (C10LErr, st).
 Proof. induction t as [|c t IH]; [reflexivity|]. rewrite run_cons. exact IH. Qed.
 
 (* ------------------------------------------------------------------ frame *)
@@ -38,11 +38,11 @@ Ltac frame_cases :=
          end.
 
 Lemma code_step_frame cfg s c ext m' s' :
-  code_step cfg s c = (m', s') -> m' <> LErr -> code_step cfg (s ++ ext) c = (m', s' ++ ext).
+  c10_code_step cfg s c = (m', s') -> m' <> C10LErr -> c10_code_step cfg (s ++ ext) c = (m', s' ++ ext).
 Proof.
-  unfold code_step. destruct (closer_of c).
+  unfold c10_code_step. destruct (c10_closer_of c).
   - intros H _. injection H as <- <-. reflexivity.
-  - destruct (is_closer c).
+  - destruct (c10_is_closer c).
     + destruct s as [|k r]; cbn [app].
       * intros H Hne. injection H as <- _. congruence.
       * destruct (k =? c); intros H Hne; injection H as <- <-; [reflexivity|congruence].
@@ -50,24 +50,24 @@ Proof.
 Qed.
 
 Lemma step_frame cfg m s c ext m' s' :
-  lex_step cfg (m, s) c = (m', s') -> m' <> LErr -> lex_step cfg (m, s ++ ext) c = (m', s' ++ ext).
+  c10_lex_step cfg (m, s) c = (m', s') -> m' <> C10LErr -> c10_lex_step cfg (m, s ++ ext) c = (m', s' ++ ext).
 Proof.
-  destruct m; cbn [lex_step]; try (frame_cases; intros H Hne; injection H as <- <-; try reflexivity; congruence).
+  destruct m; cbn [c10_lex_step]; try (frame_cases; intros H Hne; injection H as <- <-; try reflexivity; congruence).
   - apply code_step_frame.
-  - destruct (c =? c_slash); [intros H _; injection H as <- <-; reflexivity|].
-    destruct (c =? c_star); [intros H _; injection H as <- <-; reflexivity|]. apply code_step_frame.
+  - destruct (c =? c10_c_slash); [intros H _; injection H as <- <-; reflexivity|].
+    destruct (c =? c10_c_star); [intros H _; injection H as <- <-; reflexivity|]. apply code_step_frame.
   - destruct (c =? q); [intros H _; injection H as <- <-; reflexivity|]. apply code_step_frame.
 Qed.
 
-Lemma lmode_eq_dec_err (m : lmode) : {m = LErr} + {m <> LErr}.
+Lemma lmode_eq_dec_err (m : c10_lmode) : {m = C10LErr} + {m <> C10LErr}.
 Proof. destruct m; (left; reflexivity) || (right; discriminate). Defined.
 
 Lemma run_frame cfg t : forall m s ext m' s',
-  run cfg (m, s) t = (m', s') -> m' <> LErr -> run cfg (m, s ++ ext) t = (m', s' ++ ext).
+  run cfg (m, s) t = (m', s') -> m' <> C10LErr -> run cfg (m, s ++ ext) t = (m', s' ++ ext).
 Proof.
   induction t as [|c t IH]; intros m s ext m' s' H Hne.
   - cbn in *. injection H as <- <-. reflexivity.
-  - rewrite run_cons in *. destruct (lex_step cfg (m, s) c) as [m1 s1] eqn:E.
+  - rewrite run_cons in *. destruct (c10_lex_step cfg (m, s) c) as [m1 s1] eqn:E.
     destruct (lmode_eq_dec_err m1) as [->|Hm1].
     + rewrite run_err in H. injection H as <- _. congruence.
     + rewrite (step_frame _ _ _ _ ext _ _ E Hm1). eapply IH; eauto.
@@ -76,9 +76,9 @@ Qed.
 (* ------------------------------------------------------------------ transformers *)
 (* [tr cfg m t m']: the fragment t takes the lexer from mode m to mode m' with the bracket stack untouched,
    whatever the stack is.  [bal cfg t] = neutral in code. *)
-Definition tr (cfg : lexcfg) (m : lmode) (t : str) (m' : lmode) : Prop :=
+Definition tr (cfg : c10_lexcfg) (m : c10_lmode) (t : str) (m' : c10_lmode) : Prop :=
   forall st, run cfg (m, st) t = (m', st).
-Notation bal cfg t := (tr cfg LCode t LCode).
+Notation bal cfg t := (tr cfg C10LCode t C10LCode).
 
 Lemma tr_nil cfg m : tr cfg m [] m.
 Proof. intros st. reflexivity. Qed.
@@ -102,16 +102,16 @@ Proof. intros Hs H. apply tr_join; [exact Hs|]. apply Forall_map. exact H. Qed.
 Lemma tr_repeat_str cfg m s n : tr cfg m s m -> tr cfg m (repeat_str s n) m.
 Proof. intros H. induction n; cbn [repeat_str]; [apply tr_nil|]. eapply tr_app; eauto. Qed.
 
-(* a text balanced on its own is neutral anywhere in code (frame) *)
-Lemma balanced_bal cfg t : balanced cfg t = true -> bal cfg t.
+(* a text c10_balanced on its own is neutral anywhere in code (frame) *)
+Lemma balanced_bal cfg t : c10_balanced cfg t = true -> bal cfg t.
 Proof.
-  unfold balanced, lex_init. intros H st.
-  destruct (run cfg (LCode, []) t) as [m s] eqn:E.
+  unfold c10_balanced, c10_lex_init. intros H st.
+  destruct (run cfg (C10LCode, []) t) as [m s] eqn:E.
   destruct m; cbn in H; try discriminate. destruct s; [|discriminate].
-  exact (run_frame cfg t LCode [] st LCode [] E ltac:(discriminate)).
+  exact (run_frame cfg t C10LCode [] st C10LCode [] E ltac:(discriminate)).
 Qed.
-Lemma bal_balanced cfg t : bal cfg t -> balanced cfg t = true.
-Proof. intros H. unfold balanced, lex_init. rewrite H. reflexivity. Qed.
+Lemma bal_balanced cfg t : bal cfg t -> c10_balanced cfg t = true.
+Proof. intros H. unfold c10_balanced, c10_lex_init. rewrite H. reflexivity. Qed.
 
 (* ------------------------------------------------------------------ a finite case analysis on ASCII *)
 Lemma below_128 (P : N -> bool) : forallb P (map N.of_nat (seq 0 128)) = true -> forall c, c < 128 -> P c = true.
@@ -122,24 +122,24 @@ Qed.
 
 (* ------------------------------------------------------------------ neutral tokens *)
 Ltac unfold_chars :=
-  unfold c10_special, existsb, c_lparen, c_rparen, c_lbrack, c_rbrack, c_lbrace, c_rbrace, c_tick, c_slash, c_star, c_hash,
+  unfold c10_special, existsb, c10_c_lparen, c10_c_rparen, c10_c_lbrack, c10_c_rbrack, c10_c_lbrace, c10_c_rbrace, c10_c_tick, c10_c_slash, c10_c_star, c10_c_hash,
     ch_dq, ch_sq, ch_bs, ch_nl, ch_cr, ch_tab, ch_us, ch_dash, ch_sp in *.
 Ltac kill_ifs :=
   repeat match goal with |- context [if ?b then _ else _] => let E := fresh in destruct b eqn:E; [lia|] end.
 
-Lemma special_false_step cfg st c : c10_special c = false -> code_step cfg st c = (LCode, st).
+Lemma special_false_step cfg st c : c10_special c = false -> c10_code_step cfg st c = (C10LCode, st).
 Proof.
-  intros H. unfold code_step, closer_of, is_closer. unfold_chars. kill_ifs. reflexivity.
+  intros H. unfold c10_code_step, c10_closer_of, c10_is_closer. unfold_chars. kill_ifs. reflexivity.
 Qed.
 
-Lemma tok_bal cfg s : tok_ok s = true -> bal cfg s.
+Lemma tok_bal cfg s : c10_tok_ok s = true -> bal cfg s.
 Proof.
-  unfold tok_ok. intros H st. induction s as [|c r IH]; [reflexivity|].
+  unfold c10_tok_ok. intros H st. induction s as [|c r IH]; [reflexivity|].
   cbn [forallb] in H. apply andb_true_iff in H as [Hc Hr]. apply negb_true_iff in Hc.
-  rewrite run_cons. cbn [lex_step]. rewrite (special_false_step cfg st c Hc). exact (IH Hr).
+  rewrite run_cons. cbn [c10_lex_step]. rewrite (special_false_step cfg st c Hc). exact (IH Hr).
 Qed.
 
-Lemma tok_ok_app a b : tok_ok (a ++ b) = tok_ok a && tok_ok b.
+Lemma tok_ok_app a b : c10_tok_ok (a ++ b) = c10_tok_ok a && c10_tok_ok b.
 Proof. apply forallb_app. Qed.
 
 Lemma ident_char_not_special c : c10_ident_char c = true -> c10_special c = false.
@@ -152,117 +152,117 @@ Proof. unfold c10_dotted_char, c10_key_char, is_aalpha, is_alower, is_aupper, is
 Lemma forallb_impl {A} (p q : A -> bool) l : (forall x, p x = true -> q x = true) -> forallb p l = true -> forallb q l = true.
 Proof. intros H. induction l; cbn; [auto|]. rewrite !andb_true_iff. intros [? ?]. auto. Qed.
 
-Lemma ident_tok s : ident_ok s = true -> tok_ok s = true.
+Lemma ident_tok s : c10_ident_ok s = true -> c10_tok_ok s = true.
 Proof.
-  destruct s as [|c r]; [discriminate|]. unfold ident_ok, tok_ok. cbn [forallb]. rewrite !andb_true_iff. intros [Hc Hr]. split.
+  destruct s as [|c r]; [discriminate|]. unfold c10_ident_ok, c10_tok_ok. cbn [forallb]. rewrite !andb_true_iff. intros [Hc Hr]. split.
   - apply negb_true_iff, ident_char_not_special. unfold c10_ident_start, c10_ident_char in *. lia.
   - revert Hr. apply forallb_impl. intros x Hx. apply negb_true_iff, ident_char_not_special, Hx.
 Qed.
-Lemma key_tok s : key_ok s = true -> tok_ok s = true.
+Lemma key_tok s : c10_key_ok s = true -> c10_tok_ok s = true.
 Proof.
-  destruct s as [|c r]; [discriminate|]. unfold key_ok, tok_ok.
+  destruct s as [|c r]; [discriminate|]. unfold c10_key_ok, c10_tok_ok.
   apply forallb_impl. intros x Hx. apply negb_true_iff, key_char_not_special, Hx.
 Qed.
-Lemma dotted_tok s : dotted_ok s = true -> tok_ok s = true.
-Proof. unfold dotted_ok, tok_ok. apply forallb_impl. intros x Hx. apply negb_true_iff, dotted_char_not_special, Hx. Qed.
+Lemma dotted_tok s : c10_dotted_ok s = true -> c10_tok_ok s = true.
+Proof. unfold c10_dotted_ok, c10_tok_ok. apply forallb_impl. intros x Hx. apply negb_true_iff, dotted_char_not_special, Hx. Qed.
 
 (* decimal numerals *)
-Lemma dec_fuel_tok fuel : forall n acc, tok_ok acc = true -> tok_ok (dec_fuel fuel n acc) = true.
+Lemma dec_fuel_tok fuel : forall n acc, c10_tok_ok acc = true -> c10_tok_ok (dec_fuel fuel n acc) = true.
 Proof.
   induction fuel as [|f IH]; intros n acc Ha; cbn [dec_fuel]; [exact Ha|].
-  assert (Hd : tok_ok ((48 + n mod 10) :: acc) = true).
-  { unfold tok_ok in *. cbn [forallb]. rewrite Ha, andb_true_r. apply negb_true_iff.
+  assert (Hd : c10_tok_ok ((48 + n mod 10) :: acc) = true).
+  { unfold c10_tok_ok in *. cbn [forallb]. rewrite Ha, andb_true_r. apply negb_true_iff.
     assert (n mod 10 < 10) by (apply N.mod_lt; lia). unfold_chars. lia. }
   destruct (n / 10 =? 0); [exact Hd|]. apply IH. exact Hd.
 Qed.
-Lemma dec_of_Z_tok z : tok_ok (dec_of_Z z) = true.
+Lemma dec_of_Z_tok z : c10_tok_ok (dec_of_Z z) = true.
 Proof.
   destruct z; cbn [dec_of_Z]; try reflexivity; unfold dec_of_N.
   - apply dec_fuel_tok. reflexivity.
-  - change (tok_ok (45 :: dec_fuel 60 (N.pos p) [])) with (negb (c10_special 45) && tok_ok (dec_fuel 60 (N.pos p) [])).
+  - change (c10_tok_ok (45 :: dec_fuel 60 (N.pos p) [])) with (negb (c10_special 45) && c10_tok_ok (dec_fuel 60 (N.pos p) [])).
     rewrite dec_fuel_tok; reflexivity.
 Qed.
 
 (* ------------------------------------------------------------------ holes inside literals and comments *)
 (* unescaped text inside "..." *)
-Lemma instr_stay cfg s : instr_ok s = true -> tr cfg (LStr ch_dq) s (LStr ch_dq).
+Lemma instr_stay cfg s : c10_instr_ok s = true -> tr cfg (C10LStr ch_dq) s (C10LStr ch_dq).
 Proof.
-  unfold instr_ok. intros H st. induction s as [|c r IH]; [reflexivity|].
+  unfold c10_instr_ok. intros H st. induction s as [|c r IH]; [reflexivity|].
   cbn [forallb] in H. apply andb_true_iff in H as [Hc Hr]. rewrite run_cons.
-  replace (lex_step cfg (LStr ch_dq, st) c) with (LStr ch_dq, st); [exact (IH Hr)|].
-  cbn [lex_step]. unfold is_line_end. unfold_chars. kill_ifs. reflexivity.
+  replace (c10_lex_step cfg (C10LStr ch_dq, st) c) with (C10LStr ch_dq, st); [exact (IH Hr)|].
+  cbn [c10_lex_step]. unfold c10_is_line_end. unfold_chars. kill_ifs. reflexivity.
 Qed.
 (* ... when the opening quote was the previous character (triple-quote languages): a non-empty text *)
-Lemma instr_q1 cfg s : s <> [] -> instr_ok s = true -> tr cfg (LQ1 ch_dq) s (LStr ch_dq).
+Lemma instr_q1 cfg s : s <> [] -> c10_instr_ok s = true -> tr cfg (C10LQ1 ch_dq) s (C10LStr ch_dq).
 Proof.
-  destruct s as [|c r]; [congruence|]. intros _ H st. unfold instr_ok in H. cbn [forallb] in H.
+  destruct s as [|c r]; [congruence|]. intros _ H st. unfold c10_instr_ok in H. cbn [forallb] in H.
   apply andb_true_iff in H as [Hc Hr]. rewrite run_cons.
-  replace (lex_step cfg (LQ1 ch_dq, st) c) with (LStr ch_dq, st); [exact (instr_stay cfg r Hr st)|].
-  cbn [lex_step]. unfold is_line_end. unfold_chars. kill_ifs. reflexivity.
+  replace (c10_lex_step cfg (C10LQ1 ch_dq, st) c) with (C10LStr ch_dq, st); [exact (instr_stay cfg r Hr st)|].
+  cbn [c10_lex_step]. unfold c10_is_line_end. unfold_chars. kill_ifs. reflexivity.
 Qed.
-Lemma key_chars_instr s : forallb c10_key_char s = true -> instr_ok s = true.
+Lemma key_chars_instr s : forallb c10_key_char s = true -> c10_instr_ok s = true.
 Proof.
-  unfold instr_ok. apply forallb_impl. intros c. unfold c10_key_char, is_aalpha, is_alower, is_aupper, is_adigit. unfold_chars. lia.
+  unfold c10_instr_ok. apply forallb_impl. intros c. unfold c10_key_char, is_aalpha, is_alower, is_aupper, is_adigit. unfold_chars. lia.
 Qed.
 
 (* text inside back-ticks *)
-Lemma intick_stay_raw cfg s : intick_ok s = true -> tr cfg LRaw s LRaw.
+Lemma intick_stay_raw cfg s : c10_intick_ok s = true -> tr cfg C10LRaw s C10LRaw.
 Proof.
-  unfold intick_ok. intros H st. induction s as [|c r IH]; [reflexivity|].
+  unfold c10_intick_ok. intros H st. induction s as [|c r IH]; [reflexivity|].
   cbn [forallb] in H. apply andb_true_iff in H as [Hc Hr]. rewrite run_cons.
-  replace (lex_step cfg (LRaw, st) c) with (LRaw, st); [exact (IH Hr)|].
-  cbn [lex_step]. unfold_chars. kill_ifs. reflexivity.
+  replace (c10_lex_step cfg (C10LRaw, st) c) with (C10LRaw, st); [exact (IH Hr)|].
+  cbn [c10_lex_step]. unfold_chars. kill_ifs. reflexivity.
 Qed.
-Lemma intick_stay_tick cfg s : intick_ok s = true -> tr cfg LTick s LTick.
+Lemma intick_stay_tick cfg s : c10_intick_ok s = true -> tr cfg C10LTick s C10LTick.
 Proof.
-  unfold intick_ok. intros H st. induction s as [|c r IH]; [reflexivity|].
+  unfold c10_intick_ok. intros H st. induction s as [|c r IH]; [reflexivity|].
   cbn [forallb] in H. apply andb_true_iff in H as [Hc Hr]. rewrite run_cons.
-  replace (lex_step cfg (LTick, st) c) with (LTick, st); [exact (IH Hr)|].
-  cbn [lex_step]. unfold is_line_end. unfold_chars. kill_ifs. reflexivity.
+  replace (c10_lex_step cfg (C10LTick, st) c) with (C10LTick, st); [exact (IH Hr)|].
+  cbn [c10_lex_step]. unfold c10_is_line_end. unfold_chars. kill_ifs. reflexivity.
 Qed.
 
 (* a line of text inside a line comment *)
-Definition line_ok (s : str) : bool := forallb (fun c => negb ((c =? ch_nl) || (c =? ch_cr))) s.
-Lemma line_stay cfg s : line_ok s = true -> tr cfg LLine s LLine.
+Definition c10_line_ok (s : str) : bool := forallb (fun c => negb ((c =? ch_nl) || (c =? ch_cr))) s.
+Lemma line_stay cfg s : c10_line_ok s = true -> tr cfg C10LLine s C10LLine.
 Proof.
-  unfold line_ok. intros H st. induction s as [|c r IH]; [reflexivity|].
+  unfold c10_line_ok. intros H st. induction s as [|c r IH]; [reflexivity|].
   cbn [forallb] in H. apply andb_true_iff in H as [Hc Hr]. rewrite run_cons.
-  replace (lex_step cfg (LLine, st) c) with (LLine, st); [exact (IH Hr)|].
-  cbn [lex_step]. unfold is_line_end. unfold_chars. kill_ifs. reflexivity.
+  replace (c10_lex_step cfg (C10LLine, st) c) with (C10LLine, st); [exact (IH Hr)|].
+  cbn [c10_lex_step]. unfold c10_is_line_end. unfold_chars. kill_ifs. reflexivity.
 Qed.
-Lemma doc_line_ok s : doc_ok s = true -> line_ok s = true.
+Lemma doc_line_ok s : c10_doc_ok s = true -> c10_line_ok s = true.
 Proof.
-  unfold doc_ok, line_ok. rewrite !andb_true_iff. intros [[[H _] _] _]. revert H. apply forallb_impl.
+  unfold c10_doc_ok, c10_line_ok. rewrite !andb_true_iff. intros [[[H _] _] _]. revert H. apply forallb_impl.
   intros c. lia.
 Qed.
 
 (* {:?} of ANY string is a complete single-line literal *)
-Definition esc_chk (cfg : lexcfg) (c : char) : bool :=
-  match run cfg (LStr ch_dq, []) (escape_debug_char c) with (LStr q, []) => q =? ch_dq | _ => false end.
+Definition esc_chk (cfg : c10_lexcfg) (c : char) : bool :=
+  match run cfg (C10LStr ch_dq, []) (escape_debug_char c) with (C10LStr q, []) => q =? ch_dq | _ => false end.
 Lemma esc_chk_ascii cfg c : c < 128 -> esc_chk cfg c = true.
 Proof.
   destruct cfg as [a b c0 d e f g]. revert c. destruct g; apply below_128; vm_compute; reflexivity.
 Qed.
-Lemma esc_char_stay cfg c : tr cfg (LStr ch_dq) (escape_debug_char c) (LStr ch_dq).
+Lemma esc_char_stay cfg c : tr cfg (C10LStr ch_dq) (escape_debug_char c) (C10LStr ch_dq).
 Proof.
   intros st. destruct (N.ltb_spec c 128) as [Hlt|Hge].
   - pose proof (esc_chk_ascii cfg c Hlt) as H. unfold esc_chk in H.
-    destruct (run cfg (LStr ch_dq, []) (escape_debug_char c)) as [m s] eqn:E.
+    destruct (run cfg (C10LStr ch_dq, []) (escape_debug_char c)) as [m s] eqn:E.
     destruct m; try discriminate. destruct s; [|discriminate]. apply N.eqb_eq in H. subst q.
     exact (run_frame cfg _ _ [] st _ [] E ltac:(discriminate)).
   - unfold escape_debug_char. unfold_chars. kill_ifs.
-    rewrite run_cons, run_nil. cbn [lex_step]. unfold is_line_end. unfold_chars. kill_ifs. reflexivity.
+    rewrite run_cons, run_nil. cbn [c10_lex_step]. unfold c10_is_line_end. unfold_chars. kill_ifs. reflexivity.
 Qed.
-Lemma esc_stay cfg s : tr cfg (LStr ch_dq) (flat_map escape_debug_char s) (LStr ch_dq).
+Lemma esc_stay cfg s : tr cfg (C10LStr ch_dq) (flat_map escape_debug_char s) (C10LStr ch_dq).
 Proof. apply tr_flat_map. apply Forall_forall. intros c _. apply esc_char_stay. Qed.
 
 (* in a language without triple quotes the opening quote leads straight into the literal *)
-Lemma debug_str_bal cfg s : lc_triple cfg = false -> bal cfg (debug_str s).
+Lemma debug_str_bal cfg s : c10_lc_triple cfg = false -> bal cfg (debug_str s).
 Proof.
   intros Ht st. unfold debug_str. rewrite !run_app.
-  assert (E1 : run cfg (LCode, st) [ch_dq] = (LStr ch_dq, st)).
-  { rewrite run_cons, run_nil. cbn [lex_step]. unfold code_step. cbn. rewrite Ht. reflexivity. }
-  rewrite E1, (esc_stay cfg s st). rewrite run_cons, run_nil. cbn [lex_step]. rewrite N.eqb_refl. reflexivity.
+  assert (E1 : run cfg (C10LCode, st) [ch_dq] = (C10LStr ch_dq, st)).
+  { rewrite run_cons, run_nil. cbn [c10_lex_step]. unfold c10_code_step. cbn. rewrite Ht. reflexivity. }
+  rewrite E1, (esc_stay cfg s st). rewrite run_cons, run_nil. cbn [c10_lex_step]. rewrite N.eqb_refl. reflexivity.
 Qed.
 (* with triple quotes: a non-empty string *)
 Lemma escape_debug_char_first c : exists x r, escape_debug_char c = x :: r /\ x <> ch_dq /\ x <> ch_nl /\ x <> ch_cr.
@@ -273,17 +273,17 @@ Proof.
 Qed.
 Lemma debug_str_bal_triple cfg s : s <> [] -> bal cfg (debug_str s).
 Proof.
-  intros Hne st. destruct (lc_triple cfg) eqn:Ht; [|apply debug_str_bal; exact Ht].
+  intros Hne st. destruct (c10_lc_triple cfg) eqn:Ht; [|apply debug_str_bal; exact Ht].
   destruct s as [|c r]; [congruence|]. unfold debug_str. cbn [flat_map]. rewrite !run_app.
-  assert (E1 : run cfg (LCode, st) [ch_dq] = (LQ1 ch_dq, st)).
-  { rewrite run_cons, run_nil. cbn [lex_step]. unfold code_step. cbn. rewrite Ht. reflexivity. }
+  assert (E1 : run cfg (C10LCode, st) [ch_dq] = (C10LQ1 ch_dq, st)).
+  { rewrite run_cons, run_nil. cbn [c10_lex_step]. unfold c10_code_step. cbn. rewrite Ht. reflexivity. }
   rewrite E1.
-  assert (E2 : run cfg (LQ1 ch_dq, st) (escape_debug_char c) = (LStr ch_dq, st)).
+  assert (E2 : run cfg (C10LQ1 ch_dq, st) (escape_debug_char c) = (C10LStr ch_dq, st)).
   { destruct (escape_debug_char_first c) as (x & t & Ex & Hx1 & Hx2 & Hx3).
     pose proof (esc_char_stay cfg c st) as Hs. rewrite Ex in *. rewrite run_cons in *.
-    replace (lex_step cfg (LQ1 ch_dq, st) x) with (lex_step cfg (LStr ch_dq, st) x); [exact Hs|].
-    cbn [lex_step]. destruct (x =? ch_dq) eqn:E; [lia|]. reflexivity. }
-  rewrite E2, (esc_stay cfg r st). rewrite run_cons, run_nil. cbn [lex_step]. rewrite N.eqb_refl. reflexivity.
+    replace (c10_lex_step cfg (C10LQ1 ch_dq, st) x) with (c10_lex_step cfg (C10LStr ch_dq, st) x); [exact Hs|].
+    cbn [c10_lex_step]. destruct (x =? ch_dq) eqn:E; [lia|]. reflexivity. }
+  rewrite E2, (esc_stay cfg r st). rewrite run_cons, run_nil. cbn [c10_lex_step]. rewrite N.eqb_refl. reflexivity.
 Qed.
 
 (* ------------------------------------------------------------------ target type expressions *)
